@@ -143,6 +143,44 @@ def covariance (sv : Vec) (vt : Mat) (m n : Nat) : Mat :=
 def errSq (rmseSq : Rat) (cov : Mat) : Vec :=
   (List.range cov.length).map (fun i => rmseSq * (cov.getD i []).getD i 0)
 
+/-! ### the irrational part: `np.sqrt` (additions for the function-level translator, Generated/C13Fns.lean)
+
+The rational model above returns radicands.  What the code stores are square roots of them; `SNum` is C11's number class
+(`exp`, `log`, `abs`, comparisons — the standard-error loop) plus `sqrt`.  Theorems instantiate it with ℝ. -/
+
+/-- the arithmetic on doubles the statistics perform: C11's `Num` and `np.sqrt` -/
+class SNum (α : Type) extends C11.Num α where
+  sqrt : α → α
+
+/-- `np.sqrt` of an exactly known rational -/
+def sqrtOfRat {α : Type} [SNum α] (r : Rat) : α := SNum.sqrt (C11.Num.ofRat r)
+
+/-- `root_mean_square_error = float(np.sqrt(reduced_chi_square))`; `none` = no reduced χ² (ZeroDivisionError) -/
+def Stats.rmse {α : Type} [SNum α] (s : Stats) : Option α := s.rmseSq.map sqrtOfRat
+
+/-- the two RMSE attributes of a result dataset -/
+def DsStats.rmse {α : Type} [SNum α] (s : DsStats) : α := sqrtOfRat s.rmseSq
+def DsStats.wrmse {α : Type} [SNum α] (s : DsStats) : α := sqrtOfRat s.wrmseSq
+
+/-- `standard_errors = root_mean_square_error * np.sqrt(np.diag(covariance_matrix))` -/
+def standardErrors {α : Type} [SNum α] (rmse : α) (cov : Mat) : List α :=
+  (List.range cov.length).map (fun i => C11.Num.mul rmse (sqrtOfRat ((cov.getD i []).getD i 0)))
+
+/-- `mask = jacobian_sv > threshold` -/
+def svMask (sv : Vec) (m n : Nat) : List Bool := sv.map (fun s => decide (s > threshold sv m n))
+
+/-! ### the report (`Result.markdown`) -/
+
+/-- the number a cell of the report shows for a statistic (`none` = the cell reads "nan"), by the way the cell is
+    written: `plain` (the field itself), `none-to-nan:<fmt>` (`np.nan if x is None else x`), `falsy-to-nan:<fmt>`
+    (`x or np.nan`, the code before fix C13-report-zero-statistics: also a statistic that is exactly 0 reads "nan") -/
+def shownValue (kind : String) (x : Option Rat) : Option Rat :=
+  if kind = "falsy-to-nan:.2e" then
+    match x with
+    | some v => if v = 0 then none else some v
+    | none => none
+  else x
+
 /-! ### driver: the C02/C03 description lines, then the statistics -/
 open Glotaran.Proto
 
